@@ -84,6 +84,8 @@ def install_check(E, max_violations):
         for p in parts:
             sat = E._check() if p is True else E._check(p)
             if sat:
+                sat = E._check(need_model=True) if p is True else E._check(p, need_model=True)
+            if sat:
                 inputs = model_inputs(E, E.solver.model())
                 E.violations.append({"kind": "check", "label": label, "inputs": inputs})
                 raise PathAbort()
@@ -102,14 +104,17 @@ def reset_path(E, trace):
     E.input_order = []
     E.randcalls = 0
     E.observations = []
+    E.pc_hash = 0
 
 
 def explore(E, fn, args, *, initial_work=None, max_paths=None, deadline=None, collect_models=0,
-            max_violations=1, split_at=None):
+            max_violations=1, split_at=None, split_after_s=None):
     """Explore all paths of fn(*args).  Returns a result dict.  `split_at`: stop once the work list
     holds that many pending traces (used for sharding) and return them under 'pending'."""
     install_check(E, max_violations)
     E.solver = z3.Solver()          # fresh solver per job: no learned state leaks between jobs
+    E.qcache = {}
+    E.pc_refs = []          # keeps every asserted term alive for the whole job so that z3 ids stay unique
     E.solver.set("timeout", E.solver_timeout_ms)
     E.work = [list(t) for t in (initial_work if initial_work is not None else [[]])]
     E.violations = []
@@ -126,6 +131,9 @@ def explore(E, fn, args, *, initial_work=None, max_paths=None, deadline=None, co
     try:
         while E.work:
             if split_at is not None and len(E.work) >= split_at:
+                status = "split"
+                break
+            if split_after_s is not None and time.time() - t0 > split_after_s and len(E.work) >= 2:
                 status = "split"
                 break
             if max_paths is not None and E.stats.paths >= max_paths:
@@ -145,7 +153,7 @@ def explore(E, fn, args, *, initial_work=None, max_paths=None, deadline=None, co
                 completed += 1
                 E.reached["<end>"] = E.reached.get("<end>", 0) + 1
                 if len(models) < collect_models and E.concrete_inputs is None:
-                    if E._check():
+                    if E._check(need_model=True):
                         models.append(model_inputs(E, E.solver.model()))
             except PathAbort:
                 E.stats.aborted += 1
@@ -155,7 +163,7 @@ def explore(E, fn, args, *, initial_work=None, max_paths=None, deadline=None, co
                 if E.concrete_inputs is not None:
                     E.violations.append({"kind": "uncaught", "label": "uncaught:" + e.cls.name, "exc": e.cls.name,
                                          "inputs": dict(E.concrete_inputs)})
-                elif E._check():
+                elif E._check(need_model=True):
                     E.violations.append({"kind": "uncaught", "label": "uncaught:" + e.cls.name, "exc": e.cls.name,
                                          "inputs": model_inputs(E, E.solver.model())})
             finally:
